@@ -24,10 +24,10 @@ TYPES = {
     "tuple": "Tuple[int, str]", "nt": "NT", "td": "TDict", "timedelta": "datetime.timedelta", "list_bytes": "List[bytes]",
     "dict_uuid": "Dict[str, UUID]", "plain": "Plain", "gen_date": "Gen[datetime.date]", "fset": "FrozenSet[int]",
     "opt_date": "Optional[datetime.date]", "union": "Union[int, str]", "path": "PurePosixPath", "ip": "IPv4Address",
-    "selfref": "SelfRef", "optd": "OptD",
+    "selfref": "SelfRef", "optd": "OptD", "self_toml": "SelfT", "self_msgpack": "SelfM", "self_orjson": "SelfO",
 }
 QUICK = ["int", "str", "date", "datetime", "uuid", "bytes", "opt_int", "list_date", "dict_str_int", "mix", "tuple", "td",
-         "list_bytes", "gen_date", "opt_date", "float", "selfref"]
+         "list_bytes", "gen_date", "opt_date", "float", "selfref", "self_toml", "self_msgpack", "self_orjson"]
 
 
 def harnesses(tier, seed):
@@ -39,6 +39,8 @@ def harnesses(tier, seed):
                 if tier == "quick" and variant == "codec" and n not in ("date", "bytes", "mix", "list_date", "opt_int", "uuid"):
                     continue
                 if variant == "mixin_lazy" and n not in ("date", "bytes", "mix", "opt_int", "selfref", "list_bytes"):
+                    continue
+                if n.startswith("self_") and (n != "self_" + fmt or variant != "mixin"):
                     continue
                 s = Schema("%s_%s" % (fmt, n), TYPES[n], COMMON_PRELUDE)
                 try:
